@@ -235,11 +235,29 @@ pub fn run(ctx: &Ctx) -> Report {
                 }
             }
         }
-        for fen in &corp.fens {
+        for (i, fen) in corp.fens.iter().enumerate() {
             let r = check_fields(fen, &mut rep);
             rep.class("fen:corpus");
             if let Err(v) = r {
                 rep.violation(v);
+            }
+            // the same placement with other counters (a position can be revisited later in a game)
+            if corp.positions[i].ep.is_none() {
+                for (h, f) in [(4u32, 3u32), (99, 60), (37, 1200)] {
+                    let mut q = corp.positions[i].clone();
+                    q.hmc = h;
+                    q.fmn = f;
+                    let fen2 = q.to_fen();
+                    rep.class("fen:corpus-other-counters");
+                    rep.nontrivial(o::hash_str(&fen2));
+                    let r = check_fields(&fen2, &mut rep).and_then(|x| match x {
+                        Some((want, board)) => check_behaviour(&fen2, &want, &board, None, &[9, 30000], &mut rep),
+                        None => Ok(()),
+                    });
+                    if let Err(v) = r {
+                        rep.violation(v);
+                    }
+                }
             }
         }
     }
